@@ -31,8 +31,7 @@ def got_of(r, st):
 
 def cts_case(ctx, t):
     n = 0
-    for dc in range(-2, 3):
-        c = t + dc
+    for c in sorted({t + dc for dc in range(-2, 3)} | {0, 1}):      # around t, and the two smallest constraints there are
         if c < 0:
             continue
         for enc in encodings(c):
@@ -188,6 +187,45 @@ def nested_case(ctx, case):
     ctx.evaluations += n - 1
 
 
+def global_history_case(ctx, case):
+    """the verifier changes its global thresholds (functions.flags) between runs: every run uses the values in force when
+    it starts, whatever earlier runs used"""
+    which, seq = case
+    t = 1_700_000_000
+    key = 'ts_threshold' if which == 'CTS' else 'epoch_threshold'
+    saved = F.flags[key]
+    n = 0
+    try:
+        for step, thr in enumerate(seq):
+            F.flags[key] = thr
+            for dn in (-1, 0, 1):
+                n += 1
+                now = t - (thr + dn)
+                env.Clock.now = now
+                if which == 'CTS':
+                    want = thr <= 0 or t - now < thr
+                    code = pushc(t.to_bytes(4, 'big')) + op('CHECK_TIMESTAMP')
+                else:
+                    want = t - now < thr
+                    code = pushc(t.to_bytes(4, 'big')) + op('CHECK_EPOCH')
+                for runner in ('run_script', 'run_auth_scripts'):
+                    if runner == 'run_script':
+                        r, st, _ = run(code, {'timestamp': t})
+                        g = got_of(r, st)
+                    else:
+                        g = 'true' if auth([code + op('VERIFY') + op('TRUE')], {'timestamp': t}) else 'false'
+                    ctx.ran(); ctx.trans(2)
+                    ctx.state(('global-history', which, seq, step, dn, runner))
+                    ctx.outcome('gh:' + g[:5])
+                    if g != ('true' if want else 'false'):
+                        ctx.violation({'op': 'CHECK_TIMESTAMP' if which == 'CTS' else 'CHECK_EPOCH', 'clause': 'global threshold in force at the start of the run',
+                                       'history': 'threshold changed between runs'},
+                                      f'{which} thresholds so far {seq[:step + 1]} t-now={t - now} via {runner}: want {want}, got {g}')
+    finally:
+        F.flags[key] = saved
+    ctx.evaluations += n - 1
+
+
 DEF_THR = 60
 
 
@@ -253,6 +291,9 @@ def blocks(tier, seed):
     return [
         Block('CHECK_TIMESTAMP_grid', anchors, cts_case, 't x c in t+-2 x every encoding 1..9 bytes x thr x now around thr', nshards=len(anchors)),
         Block('CHECK_EPOCH_grid', anchors, ce_case, 'c x encodings x ethr x now around ethr', nshards=len(anchors)),
+        Block('global_threshold_histories', [(w, seq) for w in ('CTS', 'CE') for seq in ((60, 0, 100), (0, 60), (100, 5, 60), (5, 100, 0))],
+              global_history_case, 'functions.flags thresholds changed between runs (4 sequences) x clock around each x run_script / run_auth_scripts',
+              nshards=8),
         Block('nested_placements', [(k, w) for k in wraps(b'') for w in ('CTS', 'CE')], nested_case,
               'CHECK_TIMESTAMP / CHECK_EPOCH inside IF, both IF_ELSE arms, TRY, EXCEPT, LOOP, DEF/CALL, EVAL x custom thresholds x clock around them',
               nshards=18),
